@@ -35,6 +35,10 @@ def run(ctx):
                 pairs.append(tuple(rng.sample(pool, 3)))
             else:
                 pairs.append((rng.choice(pool), rng.choice(pool)))
+        if lib in ('BensonGA', 'SalciccioliGA2012'):
+            # large components: many pattern matches (several hundred each, more than a thousand together)
+            big = ['C' * 21, 'C' * 22, 'CC(C)' * 7 + 'C', 'C' * 18]
+            pairs += [(big[0], big[1]), (big[2], big[1]), (big[3], big[3]), (big[0], 'CCO')]
         for comp in pairs:
             jobs.append({'lib': lib, 'smiles': list(comp) + ['.'.join(comp)], 'timeout': 300})
             meta.append((lib, comp))
